@@ -1,13 +1,147 @@
-import H2.Base
-/-! Line-protocol operations of the Client area (driver side). -/
+import H2.Client.Model
+/-! Line-protocol operations of the Client area (driver side): parsing of `cli` op lines, printing of
+the step results in the canonical form the harness uses. -/
 namespace H2.Client.Drv
 
+open H2.Client
+
 structure State where
-  dummy : Nat := 0
+  id : String := ""
+  conn : Option Conn := none
+  closedBefore : Bool := false
 
 def State.init : State := {}
 
-/-- `args` is the whole line split on spaces; `args.head!` is the operation name -/
-def step (st : State) (args : List String) : State × String := (st, "bad-op")
+def b2s (b : Bool) : String := if b then "1" else "0"
+
+def kvTok (p : Bytes × Bytes) : String := hexOrDash p.1 ++ "=" ++ hexOrDash p.2
+
+def sortStrs (l : List String) : List String := l.mergeSort (fun a b => decide (a ≤ b))
+
+def tokOf : OutFrame → Nat × String
+  | .headers sid es fields =>
+    let head := (fields.take 5).map kvTok
+    let tail := sortStrs ((fields.drop 5).map kvTok)
+    (sid, s!"H{sid}:{b2s es}:1:ok:" ++ ",".intercalate (head ++ tail))
+  | .data sid len es => (sid, s!"D{sid}:{len}:{b2s es}")
+  | .rst sid code => (sid, s!"R{sid}:{code}")
+  | .settingsAck => (0, "A0")
+  | .ping ack d => (0, s!"P0:{b2s ack}:{hexOrDash d}")
+  | .windowUpdate sid inc => (sid, s!"W{sid}:{inc}")
+
+def renderFrames (fs : List OutFrame) : String :=
+  let toks := (fs.map tokOf).mergeSort (fun a b => decide (a.1 ≤ b.1))
+  if toks.isEmpty then "-" else ";".intercalate (toks.map (·.2))
+
+def ready (c : Conn) : String :=
+  let r := (c.reqs.filter fun q => !q.read && q.errBuf.isSome).map (·.tag)
+  if r.isEmpty then "-" else ",".intercalate r
+
+def sum32 (b : Bytes) : Nat := b.foldl (fun h x => (h * 31 + x) % 2 ^ 32) 0
+
+def defaultContentType : Bytes := strBytes "text/plain; charset=utf-8"
+
+def renderRead (e : Err) (r : Req) : String :=
+  let base := s!"read {e.name} retry={b2s e.retryable} sid={r.sid}"
+  if e == .ok then
+    base ++ s!" st={r.status} ct={hexOrDash (r.ct.getD defaultContentType)} h=" ++
+      (let hs := sortStrs (r.hdrs.map kvTok); if hs.isEmpty then "-" else ",".intercalate hs) ++
+      s!" body={r.body.length}:{sum32 r.body}"
+  else base
+
+def render (prefix_ : String) (c : Conn) : StepOut → String
+  | .frames fs =>
+    if c.ambiguous then "ambiguous" else
+    (if prefix_.isEmpty then "" else prefix_ ++ " ") ++ s!"out={renderFrames fs} ready={ready c}"
+  | .dead => if c.ambiguous then "ambiguous" else (if prefix_.isEmpty then "" else prefix_ ++ " ") ++ s!"dead ready={ready c}"
+  | .stuck => "stuck"
+  | .readRes none => "read none"
+  | .readRes (some (e, r)) => if c.ambiguous then "ambiguous" else renderRead e r
+  | .readAgain => "read again"
+
+def parseNat? (s : String) : Option Nat := s.toNat?
+
+def parseInt? (s : String) : Option Int := s.toInt?
+
+def parseHdrs (s : String) : Option (List (Bytes × Bytes)) :=
+  if s == "-" then some [] else
+  (s.splitOn ",").mapM fun kv =>
+    match kv.splitOn "=" with
+    | [k, v] => do
+      let k ← fromHex k
+      let v ← fromHex v
+      pure (k, v)
+    | _ => none
+
+def parseTerm : String → Option Term
+  | "eof" => some .eof | "eofw" => some .eofw | "err" => some .err | "zero" => some .zero | _ => none
+
+def parseBody (s : String) : Option BodySpec :=
+  match s.splitOn ":" with
+  | ["none"] => some .none
+  | ["buf", _, n] => do
+    let n ← parseNat? n
+    pure (if n == 0 then .none else .buf n)
+  | ["str", _, d, ch, t] => do
+    let d ← parseInt? d
+    let t ← parseTerm t
+    let ch ← if ch == "-" then some [] else (ch.splitOn ".").mapM parseNat?
+    pure (.stream d ch t)
+  | _ => none
+
+/-- the client's handshake output: preface, SETTINGS, WINDOW_UPDATE, SETTINGS ack -/
+def handshakeOut : String :=
+  s!"PRI;S0:{Gen.c_MaxWindowSize}={Gen.c_clientMaxWindow};W0:{Gen.c_clientMaxWindow - Gen.c_defaultWindowSize};A0"
+
+/-- `doHandshake` on the server's first frame -/
+def handshake (first : Bytes) : Option Conn :=
+  match splitFrames 2 first with
+  | ([.frame f], []) =>
+    match f.body with
+    | .settings s =>
+      if s.ack then some {}
+      else some { streamWindow := s.windowSize, maxStreams := s.maxStreams, maxFrameSize := s.frameSize
+                  srvTableSize := s.tableSize
+                  encTableSize := if s.tableSize ≤ Gen.c_defaultHeaderTableSize then s.tableSize else 0 }
+    | _ => none
+  | _ => none
+
+def step (st : State) (args : List String) : State × String :=
+  match args with
+  | ["cli", id, "new", hex] =>
+    match fromHex hex with
+    | none => (st, "bad-op")
+    | some b =>
+      match handshake b with
+      | none => ({ id := id, conn := none }, "hs-err")
+      | some c => ({ id := id, conn := some c }, s!"hs out={handshakeOut} ready=-")
+  | "cli" :: id :: op :: rest =>
+    if id != st.id then (st, "bad-op") else
+    match st.conn with
+    | none => (st, "hs-err")
+    | some c =>
+      let run (ev : Event) (pfx : String := "") : State × String :=
+        let (c', out) := Client.step c ev
+        ({ st with conn := some c' }, render pfx c' out)
+      match op, rest with
+      | "req", [tag, method, scheme, host, path, ua, hdrs, body] =>
+        match fromHex host, fromHex path, fromHex ua, parseHdrs hdrs, parseBody body with
+        | some host, some path, some ua, some hdrs, some body =>
+          run (.req { tag := tag, method := strBytes method, scheme := strBytes scheme, host := host, path := path,
+                      ua := ua, hdrs := hdrs, body := body })
+        | _, _, _, _, _ => (st, "bad-op")
+      | "frame", [hex] =>
+        match fromHex hex with
+        | some b => run (.bytes b)
+        | none => (st, "bad-op")
+      | "timeout", [tag] => run (.timeout tag)
+      | "read", [tag] => run (.read tag)
+      | "close", [] => if c.stuck then (st, "stuck") else run .close (if c.dead then "again" else "first")
+      | "cut", [] => run .cut
+      | "gauges", [] =>
+        if c.stuck then (st, "stuck") else
+        (st, s!"gauges open={c.openStreams} next={c.nextID} pending={c.pending.length} queued={c.reqQueued.length} can={canOpenStream c}")
+      | _, _ => (st, "bad-op")
+  | _ => (st, "bad-op")
 
 end H2.Client.Drv
